@@ -565,11 +565,11 @@ def strings(rep):
     rep.ob("O16.3", "R3d", ad, arrow is not None and arrow.strip() in toks and "|" in toks, f"printer arrow {arrow!r} / parser splits {toks}", "the arrow and the suffix bar are the tokens the parser splits on")
     adefs = local_defs(ad.node)
     rets = returns_of(ad.node)
-    am = pmatch("self.add_rxn($re, $pr, rule=$rule)", rets[-1].value) if rets else None
+    am = pmatch("self.add_rxn($$re, $$pr, rule=$rule)", rets[-1].value) if rets else None
     ok = False
     if am:
-        l_ = pmatch("RXNSide.from_str($x)", origin(adefs, ast.Name(id=am["re"], ctx=ast.Load())))
-        r_ = pmatch("RXNSide.from_str($x)", origin(adefs, ast.Name(id=am["pr"], ctx=ast.Load())))
+        l_ = pmatch("RXNSide.from_str($x)", origin(adefs, rets[-1].value.args[0]))
+        r_ = pmatch("RXNSide.from_str($x)", origin(adefs, rets[-1].value.args[1]))
         if l_ and r_:
             li = [d_.index for d_ in adefs.get(l_["x"], []) if d_.index is not None and isinstance(d_.value, ast.Call) and call_name(d_.value) == "split"]
             ri = [d_.index for d_ in adefs.get(r_["x"], []) if d_.index is not None and isinstance(d_.value, ast.Call) and call_name(d_.value) == "split"]
